@@ -665,9 +665,26 @@ def paths_under (repo, module, g, env, start, stops, cls=None, limit=200, track=
     if track and n.kind == 'stmt' and isinstance(n.ast, (ast.Assign, ast.AugAssign)) and (n is not start or (track_start and len(path) == 1)):
       ne = _assign_env(repo, module, n.ast, e, cls)
     elif track and n.kind == 'stmt' and isinstance(n.ast, ast.Expr) and isinstance(n.ast.value, ast.Call) and isinstance(n.ast.value.func, ast.Attribute) \
-         and n.ast.value.func.attr in ('append', 'extend', 'update', 'difference_update', 'add', 'discard', 'remove') and isinstance(n.ast.value.func.value, ast.Name) and len(n.ast.value.args) == 1:
-      # in-place change of a local list / set whose value is known
-      nm_ = n.ast.value.func.value.id; meth = n.ast.value.func.attr
+         and n.ast.value.func.attr in ('append', 'extend') and isinstance(n.ast.value.func.value, ast.Subscript) and isinstance(n.ast.value.func.value.value, ast.Name) and len(n.ast.value.args) == 1 \
+         and isinstance(e.exact.get(n.ast.value.func.value.value.id), dict):
+      # growth of a list kept in a local dict of known value: D[k].append(x)
+      dn_ = n.ast.value.func.value.value.id
+      ne = Env(dict(e.exact), list(e.matchers), getattr(e, 'call_hook', None))
+      try:
+        k_ = eval_env2(repo, module, n.ast.value.func.value.slice, e, cls)
+        v_ = eval_env2(repo, module, n.ast.value.args[0], e, cls)
+        if k_ is OPAQUE or v_ is OPAQUE: raise _Unknown()
+        d2 = dict(e.exact[dn_]); cur_ = d2[k_]
+        if not isinstance(cur_, list): raise _Unknown()
+        d2[k_] = cur_ + ([v_] if n.ast.value.func.attr == 'append' else list(v_))
+        ne.exact[dn_] = d2
+      except Exception:
+        _kill(ne, dn_)
+    elif track and n.kind == 'stmt' and isinstance(n.ast, ast.Expr) and isinstance(n.ast.value, ast.Call) and isinstance(n.ast.value.func, ast.Attribute) \
+         and n.ast.value.func.attr in ('append', 'extend', 'update', 'difference_update', 'add', 'discard', 'remove') and len(n.ast.value.args) == 1 \
+         and (isinstance(n.ast.value.func.value, ast.Name) or (isinstance(n.ast.value.func.value, ast.Attribute) and norm(n.ast.value.func.value) in e.exact)):
+      # in-place change of a local (or an attribute the scenario gives a value to) list / set whose value is known
+      nm_ = norm(n.ast.value.func.value); meth = n.ast.value.func.attr
       cur_ = e.exact.get(nm_)
       if isinstance(cur_, (list, set)):
         ne = Env(dict(e.exact), list(e.matchers), getattr(e, 'call_hook', None))
@@ -688,7 +705,8 @@ def paths_under (repo, module, g, env, start, stops, cls=None, limit=200, track=
             else: raise _Unknown()
             ne.exact[nm_] = c2
         except Exception:
-          _kill(ne, nm_)
+          if '.' in nm_: ne.exact.pop(nm_, None)
+          else: _kill(ne, nm_)
     for m, l in succ:
       if l == 'exc': continue
       key = (n.id, m.id)
